@@ -10,6 +10,7 @@
      2  two operators: every pairing of an operator with an operator child, in every position,
         over fixed leaves 7, 3, 2 and the variable x  (precedence and associativity)
      3  free: any tree up to MaxDepth over the full menus (simulation)
+     4  every literal of the full menu, bare and under a unary minus (the digit-set rules of base#n)
 
    The contract is bash's evaluator (expr.c), written from the manual and observed behaviour:
      Eval(t, env, ne, M, fuel) = [v, env, err, oos, used]
@@ -43,14 +44,36 @@ Abs(n) == IF n < 0 THEN 0 - n ELSE n
 (* ------------------------------------------------------------------ menus *)
 Num(s, v)  == [k |-> "lit", s |-> s, v |-> v, ok |-> TRUE]
 BadNum(s)  == [k |-> "lit", s |-> s, v |-> 0, ok |-> FALSE]
-LitMenu == <<
-  Num("0", 0), Num("2", 2), Num("3", 3), BadNum("08"), Num("0x1F", 31), Num("2#101", 5),
-  Num("1", 1), Num("7", 7), Num("017", 15), Num("64#_", 63),
-  BadNum("2#2"), BadNum("1#0"), BadNum("65#1"), Num("10#08", 8), Num("16#fF", 255),
-  Num("36#z", 35), Num("0X1f", 31), Num("00", 0), Num("64#a", 10), Num("64#A", 36), Num("64#@", 62),
-  BadNum("019"), BadNum("0x1G"), Num("37#Z", 0) >>      \* the last is replaced below
-\* base 37: digits 0-9 a-z A-Z @ _ ; Z = 61 is not a digit of base 37
-LitFull == [i \in 1..Len(LitMenu) |-> IF LitMenu[i].s = "37#Z" THEN BadNum("37#Z") ELSE LitMenu[i]]
+(* base#n literals (bash manual, ARITHMETIC EVALUATION): base 2..64; the digits are 0-9, a-z, A-Z, @, _
+   in that order; up to base 36 upper and lower case letters are the same digits 10..35; every digit
+   must be smaller than the base.  The value and the validity of a literal are computed from its
+   base and digit list by this rule (the text s is the same literal written out). *)
+DigitChars == <<"0","1","2","3","4","5","6","7","8","9",
+                "a","b","c","d","e","f","g","h","i","j","k","l","m","n","o","p","q","r","s","t","u","v","w","x","y","z",
+                "A","B","C","D","E","F","G","H","I","J","K","L","M","N","O","P","Q","R","S","T","U","V","W","X","Y","Z",
+                "@","_">>
+DigitOf(c, base) ==
+  LET i == CHOOSE k \in 1..64 : DigitChars[k] = c IN
+  IF base <= 36 /\ i >= 37 /\ i <= 62 THEN i - 27 ELSE i - 1
+RECURSIVE DigitsVal(_, _, _)
+DigitsVal(ds, base, acc) == IF ds = <<>> THEN acc ELSE DigitsVal(Tail(ds), base, acc * base + DigitOf(Head(ds), base))
+BaseNum(s, base, ds) ==
+  LET ok == base >= 2 /\ base <= 64 /\ ds # <<>> /\ \A k \in 1..Len(ds) : DigitOf(ds[k], base) < base IN
+  [k |-> "lit", s |-> s, v |-> IF ok THEN DigitsVal(ds, base, 0) ELSE 0, ok |-> ok]
+LitFull == <<
+  Num("0", 0), Num("2", 2), Num("3", 3), BadNum("08"), Num("0x1F", 31), BaseNum("2#101", 2, <<"1","0","1">>),
+  Num("1", 1), Num("7", 7), Num("017", 15), BaseNum("64#_", 64, <<"_">>),
+  BaseNum("2#2", 2, <<"2">>), BaseNum("1#0", 1, <<"0">>), BaseNum("65#1", 65, <<"1">>),
+  BaseNum("10#08", 10, <<"0","8">>), BaseNum("16#fF", 16, <<"f","F">>), BaseNum("8#8", 8, <<"8">>),
+  BaseNum("36#z", 36, <<"z">>), BaseNum("36#Z", 36, <<"Z">>), BaseNum("36#1Z", 36, <<"1","Z">>),
+  BaseNum("36#A", 36, <<"A">>), BaseNum("36#10", 36, <<"1","0">>), BaseNum("36#@", 36, <<"@">>),
+  BaseNum("35#y", 35, <<"y">>), BaseNum("35#Y", 35, <<"Y">>), BaseNum("35#z", 35, <<"z">>), BaseNum("35#Z", 35, <<"Z">>),
+  BaseNum("37#a", 37, <<"a">>), BaseNum("37#z", 37, <<"z">>), BaseNum("37#A", 37, <<"A">>), BaseNum("37#B", 37, <<"B">>),
+  BaseNum("37#Z", 37, <<"Z">>), BaseNum("37#1A", 37, <<"1","A">>),
+  BaseNum("62#Z", 62, <<"Z">>), BaseNum("62#@", 62, <<"@">>), BaseNum("63#@", 63, <<"@">>), BaseNum("63#_", 63, <<"_">>),
+  BaseNum("64#@", 64, <<"@">>), BaseNum("64#1_", 64, <<"1","_">>), BaseNum("64#a", 64, <<"a">>), BaseNum("64#A", 64, <<"A">>),
+  BaseNum("64#Z9", 64, <<"Z","9">>),
+  Num("0X1f", 31), Num("00", 0), BadNum("019"), BadNum("0x1G") >>
 NLit == Len(LitFull)
 \* family 1 uses the first NLit1 literals
 
@@ -329,6 +352,7 @@ Allowed(f, d, nl, no) ==
   ELSE IF f = 2 THEN (IF d = 0 THEN OpChoices(2)
                       ELSE IF d = 1 /\ no < 2 THEN OpChoices(2) \cup LeafChoices(2, nl)
                       ELSE LeafChoices(2, nl))
+  ELSE IF f = 4 THEN (IF d = 0 THEN (1..NLit) \cup {201} ELSE 1..NLit)
   ELSE (IF d < MaxDepth THEN OpChoices(3) \cup LeafChoices(3, nl) ELSE LeafChoices(3, nl))
 LeafOf(f, c, nl) ==
   IF c >= 111 THEN IncOf(((c - 111) \div 3) + 1, ((c - 111) % 3) + 1)
